@@ -17,6 +17,7 @@ import (
 	"iter"
 	"math/rand"
 	"os"
+	"runtime"
 	"sort"
 	"strings"
 	"sync"
@@ -31,28 +32,30 @@ import (
 // scenario / observation
 
 type scenario struct {
-	ID        int      `json:"id"`
-	Kind      string   `json:"kind"` // solo | multi
-	N         int      `json:"n"`
-	Files     int      `json:"files"`
-	Blocks    int      `json:"blocks"`
-	Rows      int      `json:"rows"` // rows per block
-	Bloom     bool     `json:"bloom"`
-	Match     string   `json:"match"`    // all | some
-	Meta      string   `json:"meta"`     // mem | fs
-	Engine    string   `json:"engine"`   // fresh | started | stopped
-	Consumer  string   `json:"consumer"` // drain | take:<k> | stall
-	Pause     string   `json:"pause"`    // "" | kind#n
-	Actions   []string `json:"actions"`  // at the pause: cancel | close | close2
-	Fault     string   `json:"fault"`    // "" | kind#n
-	Corrupt   string   `json:"corrupt"`  // "" | f#b : a byte of that block's row data is flipped in the store
-	Mid       []string `json:"mid"`      // once the pause is released and a Close issued there has returned, before a stalled consumer resumes: cancel
-	After     []string `json:"after"`    // after the first false: next | close | cancel
-	Queries   int      `json:"queries"`  // multi: concurrent queries
-	Stalled   int      `json:"stalled"`  // multi: how many of them never call Next
-	GateReads bool     `json:"gate_reads"`
-	SlowIter  int      `json:"slow_iter"` // ms the MetaStore iterator takes to wind down once its consumer stops (a slow cursor close)
-	Big       int      `json:"big"`       // distinct tokens added to every block: filter sections of MiBs, so the region spans several chunks
+	ID         int      `json:"id"`
+	Kind       string   `json:"kind"` // solo | multi
+	N          int      `json:"n"`
+	Files      int      `json:"files"`
+	Blocks     int      `json:"blocks"`
+	Rows       int      `json:"rows"` // rows per block
+	Bloom      bool     `json:"bloom"`
+	Match      string   `json:"match"`       // all | some
+	Meta       string   `json:"meta"`        // mem | fs
+	Engine     string   `json:"engine"`      // fresh | started | stopped
+	Consumer   string   `json:"consumer"`    // drain | take:<k> | stall
+	Pause      string   `json:"pause"`       // "" | kind#n
+	Actions    []string `json:"actions"`     // at the pause: cancel | close | close2
+	Fault      string   `json:"fault"`       // "" | kind#n
+	Corrupt    string   `json:"corrupt"`     // "" | f#b : a byte of that block's row data is flipped in the store
+	Mid        []string `json:"mid"`         // once the pause is released and a Close issued there has returned, before a stalled consumer resumes: cancel
+	After      []string `json:"after"`       // after the first false: next | close | cancel
+	Sat        []string `json:"sat"`         // once the pipeline has backed up behind a consumer that is not reading (no goroutine can move): cancel | close
+	HookCancel string   `json:"hook_cancel"` // "point#n": the caller cancels from inside the n-th occurrence of that engine hook (right after a slot or reference was released), with one P, so a goroutine the release woke has not run yet
+	Queries    int      `json:"queries"`     // multi: concurrent queries
+	Stalled    int      `json:"stalled"`     // multi: how many of them never call Next
+	GateReads  bool     `json:"gate_reads"`
+	SlowIter   int      `json:"slow_iter"` // ms the MetaStore iterator takes to wind down once its consumer stops (a slow cursor close)
+	Big        int      `json:"big"`       // distinct tokens added to every block: filter sections of MiBs, so the region spans several chunks
 }
 
 type handleObs struct {
@@ -122,6 +125,7 @@ type obs struct {
 	Handles    []handleObs `json:"handles"`
 	Opens      int         `json:"opens"`
 	InReadMax  int         `json:"in_read_max"`
+	InIOMax    int         `json:"in_io_max"` // reads plus OpenFile calls in progress at once
 	GateRounds int         `json:"gate_rounds"`
 	Leftover   int         `json:"leftover"` // query goroutines still alive after every query terminated (0/1)
 	ProbeHeld  int         `json:"probe_held"`
@@ -164,6 +168,8 @@ type ctl struct {
 	reached   bool
 	inRead    int
 	inReadMax int
+	inIO      int // reads and OpenFile calls in progress
+	inIOMax   int
 	opens     int
 	gate      bool
 	gateCh    chan struct{}
@@ -227,6 +233,13 @@ func (c *ctl) Before(op *h.StoreOp) error {
 		if c.inRead > c.inReadMax {
 			c.inReadMax = c.inRead
 		}
+	}
+	// an OpenFile in progress is I/O against the DataStore just as a Read on a handle is
+	if kind == "read" || kind == "open" {
+		c.inIO++
+		if c.inIO > c.inIOMax {
+			c.inIOMax = c.inIO
+		}
 		if c.gate {
 			gateCh = c.gateCh
 		}
@@ -248,6 +261,9 @@ func (c *ctl) After(op *h.StoreOp, err error) {
 	c.activity.Add(1)
 	c.mu.Lock()
 	defer c.mu.Unlock()
+	if op.Kind == "read" || op.Kind == "open" {
+		c.inIO--
+	}
 	switch op.Kind {
 	case "open":
 		if err == nil {
@@ -284,7 +300,7 @@ func (c *ctl) releaseGate() {
 func (c *ctl) readers() int {
 	c.mu.Lock()
 	defer c.mu.Unlock()
-	return c.inRead
+	return c.inIO
 }
 
 // ---------------------------------------------------------------------------
@@ -756,6 +772,32 @@ func runSolo(sc scenario, scratch string, guard *h.StdioGuard) (o obs) {
 	}
 	qrec.begin()
 	defer qrec.end(sc)
+	var armed atomic.Bool
+	if sc.HookCancel != "" {
+		old := runtime.GOMAXPROCS(1)
+		defer runtime.GOMAXPROCS(old)
+		var mu sync.Mutex
+		seen, fired := map[string]int{}, false
+		qrec.setOnHook(func(name string) {
+			mu.Lock()
+			seen[name]++
+			hit := !fired && fmt.Sprintf("%s#%d", name, seen[name]) == sc.HookCancel
+			// "released": the first hand-over point after the paused goroutine was let go (it held a slot inside its store
+			// call while others queued up for one)
+			if !fired && sc.HookCancel == "released" && armed.Load() && (name == "fw.rel" || name == "h.release" || name == "bw.deliver.park") {
+				hit = true
+			}
+			if hit {
+				fired = true
+			}
+			mu.Unlock()
+			if hit {
+				o.Reached = true
+				r.doCancel()
+			}
+		})
+		defer qrec.setOnHook(nil)
+	}
 	res, err := w.eng.Query(r.ctx, w.query())
 	if err != nil {
 		o.Infra = "query: " + err.Error()
@@ -784,6 +826,7 @@ func runSolo(sc scenario, scratch string, guard *h.StdioGuard) (o obs) {
 	release := func() {
 		if sc.Pause != "" && !released {
 			released = true
+			armed.Store(true)
 			close(c.pauseCh)
 		}
 	}
@@ -807,6 +850,20 @@ func runSolo(sc scenario, scratch string, guard *h.StdioGuard) (o obs) {
 			}
 		}
 		release()
+	}
+	// a pipeline that has backed up as far as it can (every stage blocked on the next one): Close / cancel land while the
+	// file stage sits in its job send, the workers in theirs
+	if len(sc.Sat) > 0 && limit >= 0 {
+		quiesce(c)
+		for _, a := range sc.Sat {
+			switch a {
+			case "cancel":
+				r.doCancel()
+			case "close":
+				r.doClose()
+			}
+			quiesce(c)
+		}
 	}
 	// between a Close that has returned (it decided the terminal state) and the consumer's next call
 	if len(sc.Mid) > 0 && limit >= 0 {
@@ -886,6 +943,7 @@ func finishObs(o *obs, w *world, rs []*runner) {
 	c.mu.Lock()
 	o.Reached = c.reached || (w.sc.Pause == "" && w.sc.Fault == "")
 	o.InReadMax = c.inReadMax
+	o.InIOMax = c.inIOMax
 	o.Opens = c.opens
 	for _, id := range c.order {
 		hs := c.handleQ[id]
@@ -1024,8 +1082,8 @@ func probe(o *obs, sc scenario, w *world) {
 	c := w.c
 	c.mu.Lock()
 	c.gate = true
-	c.inReadMax = 0
-	base := c.inRead
+	c.inReadMax, c.inIOMax = 0, 0
+	base := c.inIO
 	c.mu.Unlock()
 	ctx, cancel := context.WithCancel(context.WithValue(context.Background(), qkey, 99))
 	defer cancel()
@@ -1144,12 +1202,12 @@ func runMulti(sc scenario, scratch string, guard *h.StdioGuard) (o obs) {
 		r.o.IterOpenAtDone = c.iterOpen[r.q] != 0
 		c.mu.Unlock()
 	}
-	inReadMax := 0
+	inReadMax, inIOMax := 0, 0
 	c.mu.Lock()
-	inReadMax = c.inReadMax
+	inReadMax, inIOMax = c.inReadMax, c.inIOMax
 	c.mu.Unlock()
 	finishObs(&o, w, rs)
-	o.InReadMax = inReadMax
+	o.InReadMax, o.InIOMax = inReadMax, inIOMax
 	qrec.end(sc)
 	probe(&o, sc, w)
 	for _, r := range rs {
@@ -1209,6 +1267,9 @@ func generate(tier string, seed int64, scratch string, guard *h.StdioGuard) []sc
 		}
 		if sc.Mid == nil {
 			sc.Mid = []string{}
+		}
+		if sc.Sat == nil {
+			sc.Sat = []string{}
 		}
 		if sc.Engine == "" {
 			sc.Engine = []string{"fresh", "started", "stopped"}[rng.Intn(3)]
@@ -1329,6 +1390,42 @@ func generate(tier string, seed int64, scratch string, guard *h.StdioGuard) []sc
 			sc := scenario{N: 1, Files: nf, Blocks: 1, Rows: 70, Bloom: true, Match: "all", SlowIter: 150, Consumer: "stall",
 				Pause: fmt.Sprintf("yield#%d", nf-2), Actions: as, After: []string{"next"}}
 			add(sc)
+		}
+	}
+	// the same without holding anything: the pipeline backs up on its own until the file stage blocks in its job send (more
+	// candidates than the channels and workers can hold), then Close / cancel
+	for _, as := range [][]string{{"close"}, {"cancel"}, {"close", "cancel"}} {
+		for _, cons := range []string{"stall", "take:1"} {
+			for _, sh := range []scenario{{N: 2, Files: 40, Blocks: 1, Rows: 70, Bloom: false, Match: "all"},
+				{N: 1, Files: 36, Blocks: 1, Rows: 70, Bloom: true, Match: "all"}} {
+				sc := sh
+				sc.Consumer, sc.Sat, sc.After = cons, as, []string{"next", "close"}
+				add(sc)
+			}
+		}
+	}
+	// the caller cancels at the very moment a slot or a file reference is handed on: from inside the engine hook that follows
+	// each release, on a single P, so whoever the release woke has been given the slot but has not looked at the context yet
+	for _, sh := range []scenario{{N: 1, Files: 3, Blocks: 1, Rows: 5, Bloom: true, Match: "all"}, {N: 1, Files: 2, Blocks: 2, Rows: 70, Bloom: true, Match: "all"}} {
+		for _, pt := range []string{"fw.rel", "h.release", "bw.deliver.park"} {
+			for n := 1; n <= 6; n++ {
+				if pt == "fw.rel" && n > sh.Files || pt == "bw.deliver.park" && n > 2 {
+					continue
+				}
+				sc := sh
+				sc.Consumer, sc.HookCancel, sc.After = []string{"drain", "take:1"}[n%2], fmt.Sprintf("%s#%d", pt, n), []string{"next", "close"}
+				add(sc)
+			}
+		}
+		// a worker held inside a store call with the slot it took, the others queueing for one; when it is let go, the caller
+		// cancels at the hand-over that follows
+		pos := positions(sh, scratch, guard)
+		for _, k := range []string{"open", "read"} {
+			for n := 1; n <= pos[k]; n++ {
+				sc := sh
+				sc.Pause, sc.HookCancel, sc.Consumer, sc.After = fmt.Sprintf("%s#%d", k, n), "released", "drain", []string{"next", "close"}
+				add(sc)
+			}
 		}
 	}
 	// several queries sharing the budget, every read held until quiescence
